@@ -13,6 +13,9 @@ CHECK_DEADLOCK FALSE
 """
 
 
+REPLAY = ("TraceSearch", engine.TRACE_CFG % '"C03"')
+
+
 def signature(ev):
     if ev["panic"]:
         return "C03|panic|%s" % ev["op"]
